@@ -297,6 +297,27 @@ def hdu_states(f):
     return out
 
 
+def _axis_count_check_only(f, call):
+    """the out-argument of this fits_get_img_dim is a local that is only ever compared with integer constants"""
+    a = f.strip(f.args(call)[1])
+    if not (f.k(a) == "UnaryOperator" and f.nodes[a].get("op") == "&" and f.k(f.strip(f.nodes[a]["ch"][0])) == "DeclRefExpr"):
+        return False
+    vid = f.nodes[f.strip(f.nodes[a]["ch"][0])]["decl"].get("id")
+    uses = [x for x in f.walk() if f.k(x) == "DeclRefExpr" and f.nodes[x]["decl"].get("id") == vid and x not in set(f.walk(call))]
+    if not uses:
+        return False
+    for u in uses:
+        p_ = f.parent[u]
+        while p_ >= 0 and f.k(p_) in core.TRANSPARENT:
+            p_ = f.parent[p_]
+        if p_ < 0 or f.k(p_) != "BinaryOperator" or f.nodes[p_].get("op") not in ("==", "!=", "<", "<=", ">", ">="):
+            return False
+        other = [f.strip(y) for y in f.nodes[p_]["ch"] if u not in set(f.walk(y)) and f.strip(y) != u]
+        if not other or "cv" not in f.nodes[other[0]]:
+            return False
+    return True
+
+
 def sm4(P, C):
     C.rule("SM-4", "the size model reads what lives in the primary header — dimension count, coefficient shape, orders and above all the count "
            "of auxiliary keys — while the primary HDU is current (after fits_movabs_hdu(…,1,…) and before any move to a KNOTS extension), and "
@@ -304,6 +325,8 @@ def sm4(P, C):
     for f in [P.one("estimateMemory", unit="driver"), P.one("read_fits_core", unit="driver")]:
         seen = {}
         for i, n, st in hdu_states(f):
+            if n == "fits_get_img_dim" and _axis_count_check_only(f, i):
+                continue        # asks how many axes the CURRENT image has, to test it against a constant (VG-2f): not a read of the table's shape
             if n in PRIMARY_READERS:
                 a = seen.setdefault(n, {"n": 0, "bad": []})
                 a["n"] += 1
